@@ -275,7 +275,9 @@ if __name__ == "__main__":
     finally:
         if not os.environ.get("KEEP"):
             shutil.rmtree(scratch, ignore_errors=True)
-    fails = [o for o in r["obligations"] if o["status"] != "SUCCESS"]
+    fails = [o for o in r["obligations"] if o["status"] == "FAILURE"]
+    unk = [o for o in r["obligations"] if o["status"] not in ("SUCCESS", "FAILURE")]
+    if unk: print("  (%d obligations UNKNOWN: they follow a failed one)" % len(unk))
     print("unit %s: %s %s  obligations=%d failed=%d wall=%.1fs solver=%.1fs" % (name, r["status"], r["reason"], len(r["obligations"]), len(fails), r["wall_s"], r["solver_s"]))
     for o in fails[:int(os.environ.get("MAXFAIL", "12"))]:
         print("  FAIL %s [%s:%d] %s tags=%s" % (o["name"], o["file"], o["line"], o["desc"], o["tags"]))
